@@ -644,4 +644,760 @@ theorem bouncexf_eq_spec (loc host msg : Bytes) : bouncexf (dtline loc host) msg
   unfold bouncexf LocalSpec.loops LocalSpec.headerLines
   rw [bxScan_eq_spec _ msg.length msg (Nat.le_refl _), dtline_eq_spec]
 
+/-! ### `main()` as a whole -/
+
+/-- the first candidate that is not absent decides -/
+theorem qmeSelect_decides (fs : Bytes → FStat) (c : Cand) (post : List Cand) :
+    ∀ pre : List Cand, (∀ x ∈ pre, fs x.name = .absent) → fs c.name ≠ .absent →
+      qmeSelect fs (pre ++ c :: post) =
+        (match fs c.name with
+         | .temp => .temp c.name
+         | .reg m ct => if m &&& patrn ≠ 0 then .writable c.name else .found c m ct
+         | .absent => .nofile)
+  | [], _, hc => by
+    simp only [List.nil_append, qmeSelect]
+    cases h : fs c.name <;> simp_all
+  | d :: pre, hpre, hc => by
+    simp only [List.cons_append, qmeSelect, hpre d (List.mem_cons_self ..)]
+    exact qmeSelect_decides fs c post pre (fun x hx => hpre x (List.mem_cons_of_mem _ hx)) hc
+
+/-- nothing was delivered, forwarded or printed -/
+def Refused (r : Result) (code : Nat) : Prop := r.code = code ∧ r.effects = [] ∧ r.did = [] ∧ r.out = []
+
+theorem run_home_writable (a : Args) (w : World) (m : Nat) (hm : w.home = some m) (hw : m &&& patrn ≠ 0) :
+    Refused (run a w) 111 ∧ (run a w).why = some .homeWritable := by
+  simp [run, checkhome, hm, hw, Refused, Why.code, homeWritableCode]
+
+theorem run_home_sticky (a : Args) (w : World) (m : Nat) (hm : w.home = some m) (hs : m &&& stickyBit ≠ 0)
+    (hd : a.doit = true) : Refused (run a w) 111 := by
+  by_cases hw : m &&& patrn = 0
+  · simp [run, checkhome, hm, hw, hs, hd, Refused, Why.code, homeStickyCode]
+  · exact (run_home_writable a w m hm hw).1
+
+/-- the home directory passed `checkhome` -/
+def HomeOK (a : Args) (w : World) : Prop := ∃ warn, checkhome a.doit w.home = (none, warn)
+
+theorem run_looping (a : Args) (w : World) (hh : HomeOK a w) (hd : a.doit = true)
+    (hl : LocalSpec.loops a.loc a.host a.msg = true) : Refused (run a w) 100 ∧ (run a w).why = some .looping := by
+  obtain ⟨warn, hh⟩ := hh
+  rw [← bouncexf_eq_spec] at hl
+  simp only [run, hh]
+  simp [hd, hl, Refused, Why.code, loopingCode]
+
+/-- the loop check does not fire (always so with `-n`) -/
+def NoLoop (a : Args) : Prop := ¬ (a.doit = true ∧ LocalSpec.loops a.loc a.host a.msg = true)
+
+theorem run_qmail_writable (a : Args) (w : World) (hh : HomeOK a w) (hn : NoLoop a) (n : Bytes)
+    (hs : qmeSelect w.fs (qmeCandidates a.dash (safeext a.ext)) = .writable n) :
+    Refused (run a w) 111 ∧ (run a w).why = some .qmailWritable := by
+  obtain ⟨warn, hh⟩ := hh
+  unfold NoLoop at hn; rw [← bouncexf_eq_spec] at hn
+  simp [run, hh, hn, hs, Refused, Why.code, qmailWritableCode]
+
+theorem run_qmail_temp (a : Args) (w : World) (hh : HomeOK a w) (hn : NoLoop a) (n : Bytes)
+    (hs : qmeSelect w.fs (qmeCandidates a.dash (safeext a.ext)) = .temp n) : Refused (run a w) 111 := by
+  obtain ⟨warn, hh⟩ := hh
+  unfold NoLoop at hn; rw [← bouncexf_eq_spec] at hn
+  simp [run, hh, hn, hs, Refused]
+
+theorem run_nofile_dash (a : Args) (w : World) (hh : HomeOK a w) (hn : NoLoop a)
+    (hs : qmeSelect w.fs (qmeCandidates a.dash (safeext a.ext)) = .nofile) (hd : a.dash ≠ []) :
+    Refused (run a w) 100 ∧ (run a w).why = some .noMailbox := by
+  obtain ⟨warn, hh⟩ := hh
+  unfold NoLoop at hn; rw [← bouncexf_eq_spec] at hn
+  simp [run, hh, hn, hs, hd, Refused, Why.code, noMailboxCode]
+
+theorem run_nofile_nodash (a : Args) (w : World) (hh : HomeOK a w) (hn : NoLoop a)
+    (hs : qmeSelect w.fs (qmeCandidates a.dash (safeext a.ext)) = .nofile) (hd : a.dash = []) (u : Bytes)
+    (hu : ueoOf a.loc a.dash (safeext a.ext) a.host a.sender w.ex = .ok u) :
+    ∃ r0, run a w = deliver a w a.aliasempty false r0 ∧ r0.ueo = some u := by
+  obtain ⟨warn, hh⟩ := hh
+  unfold NoLoop at hn; rw [← bouncexf_eq_spec] at hn
+  refine ⟨{ stickyWarn := warn, tried := qmeTried w.fs (qmeCandidates a.dash (safeext a.ext)), ueo := some u }, ?_, rfl⟩
+  simp only [run, hh, hn, hs, hu]
+  simp [hd]
+
+theorem run_found (a : Args) (w : World) (hh : HomeOK a w) (hn : NoLoop a) (c : Cand) (mode : Nat) (content u : Bytes)
+    (hs : qmeSelect w.fs (qmeCandidates a.dash (safeext a.ext)) = .found c mode content)
+    (hu : ueoOf a.loc a.dash (safeext a.ext) a.host a.sender w.ex = .ok u) :
+    ∃ r0, r0.ueo = some u ∧ r0.sel = some c ∧
+      run a w = if content = [] then deliver a w a.aliasempty false r0 else deliver a w content (mode &&& xBit ≠ 0) r0 := by
+  obtain ⟨warn, hh⟩ := hh
+  unfold NoLoop at hn; rw [← bouncexf_eq_spec] at hn
+  refine ⟨{ stickyWarn := warn, tried := qmeTried w.fs (qmeCandidates a.dash (safeext a.ext)), sel := some c,
+            dfltEnv := c.dflt.map (fun i => a.ext.drop i), ueo := some u }, rfl, rfl, ?_⟩
+  simp only [run, hh, hn, hs, hu]
+  simp
+
+/-- every run either stops before the first instruction, or is the instruction loop on some text -/
+theorem run_cases (a : Args) (w : World) :
+    (∃ code, code ≠ 0 ∧ Refused (run a w) code) ∨
+    (∃ r0, run a w = deliver a w a.aliasempty false r0) ∨
+    (∃ c mode content r0, qmeSelect w.fs (qmeCandidates a.dash (safeext a.ext)) = .found c mode content ∧ content ≠ [] ∧
+        run a w = deliver a w content (mode &&& xBit ≠ 0) r0) := by
+  unfold run
+  rcases hc : checkhome a.doit w.home with ⟨_ | y, warn⟩
+  · simp only
+    split
+    · left; exact ⟨_, by simp [Why.code, loopingCode], rfl, rfl, rfl, rfl⟩
+    · cases hs : qmeSelect w.fs (qmeCandidates a.dash (safeext a.ext)) with
+      | temp n => left; exact ⟨111, by simp, rfl, rfl, rfl, rfl⟩
+      | writable n => left; exact ⟨_, by simp [Why.code, qmailWritableCode], rfl, rfl, rfl, rfl⟩
+      | nofile =>
+        simp only
+        split
+        · left; exact ⟨_, by simp [Why.code, noMailboxCode], rfl, rfl, rfl, rfl⟩
+        · split
+          · left; exact ⟨111, by simp, rfl, rfl, rfl, rfl⟩
+          · right; left; exact ⟨_, rfl⟩
+      | found c mode content =>
+        simp only
+        split
+        · left; exact ⟨111, by simp, rfl, rfl, rfl, rfl⟩
+        · split
+          · right; left; exact ⟨_, rfl⟩
+          · rename_i hne
+            right; right; exact ⟨c, mode, content, _, rfl, hne, rfl⟩
+  · left
+    refine ⟨y.code, ?_, rfl, rfl, rfl, rfl⟩
+    revert hc
+    unfold checkhome
+    cases w.home with
+    | none => simp; rintro rfl _; simp [Why.code]
+    | some m =>
+      simp only
+      split
+      · simp; rintro rfl _; simp [Why.code, homeWritableCode]
+      · split
+        · split
+          · simp; rintro rfl _; simp [Why.code, homeStickyCode]
+          · simp
+        · simp
+
+theorem checkhome_some_code (d : Bool) (home : Option Nat) (y : Why) (warn : Bool)
+    (hc : checkhome d home = (some y, warn)) : y.code = 111 := by
+  revert hc
+  unfold checkhome
+  cases home with
+  | none => simp; rintro rfl _; simp [Why.code]
+  | some m =>
+    simp only
+    split
+    · simp; rintro rfl _; simp [Why.code, homeWritableCode]
+    · split
+      · split
+        · simp; rintro rfl _; simp [Why.code, homeStickyCode]
+        · simp
+      · simp
+
+/-- with a non-empty control file selected, a run either stops before the first instruction or follows that file -/
+theorem run_found_cases (a : Args) (w : World) (c : Cand) (mode : Nat) (content : Bytes)
+    (hs : qmeSelect w.fs (qmeCandidates a.dash (safeext a.ext)) = .found c mode content) (hne : content ≠ []) :
+    (∃ code, code ≠ 0 ∧ Refused (run a w) code) ∨ ∃ r0, run a w = deliver a w content (mode &&& xBit ≠ 0) r0 := by
+  unfold run
+  rcases hc : checkhome a.doit w.home with ⟨_ | y, warn⟩
+  · simp only [hs]
+    split
+    · left; exact ⟨_, by simp [Why.code, loopingCode], rfl, rfl, rfl, rfl⟩
+    · split
+      · left; exact ⟨111, by simp, rfl, rfl, rfl, rfl⟩
+      · right; exact ⟨_, rfl⟩
+  · left
+    exact ⟨y.code, by rw [checkhome_some_code _ _ _ _ hc]; simp, rfl, rfl, rfl, rfl⟩
+
+/-! ### envelope sender of forwarded copies -/
+
+theorem ueoOf_eq_spec (loc dash sx host sender : Bytes) (ex : Bytes → Option Bool) (o1 o2 : Bool)
+    (h1 : ex (dotQmail ++ dash ++ sx ++ ownerB) = some o1)
+    (h2 : ex (dotQmail ++ dash ++ sx ++ ownerDefaultB) = some o2) :
+    ueoOf loc dash sx host sender ex = .ok (LocalSpec.forwardSender loc host sender o1 o2) := by
+  unfold ueoOf LocalSpec.forwardSender
+  by_cases hs : sender = [] ∨ sender = bounceVerp
+  · have hs' : sender = [] ∨ sender = [35, 64, 91, 93] := by simpa [bounceVerp] using hs
+    simp [hs, hs']
+  · have hs' : ¬ (sender = [] ∨ sender = [35, 64, 91, 93]) := by simpa [bounceVerp] using hs
+    simp only [hs, hs', if_false, h1, h2]
+    cases o1 <;> cases o2 <;> simp [ownerB, DASH, AT]
+
+/-! ### one line of the control file = the documented reading -/
+
+theorem dropWhile_append' (p : Byte → Bool) : ∀ (a b : Bytes),
+    (a ++ b).dropWhile p = if a.dropWhile p = [] then b.dropWhile p else a.dropWhile p ++ b
+  | [], b => by simp
+  | x :: a, b => by
+    simp only [List.cons_append, List.dropWhile_cons]
+    by_cases hx : p x = true
+    · simp only [hx, if_true]; exact dropWhile_append' p a b
+    · simp [hx]
+
+theorem stripTrail_eq_spec : ∀ l : Bytes, stripTrail l = LocalSpec.trimRight l
+  | [] => by simp [stripTrail, LocalSpec.trimRight]
+  | c :: r => by
+    have ih := stripTrail_eq_spec r
+    unfold stripTrail at ih ⊢
+    rw [List.reverse_cons, dropWhile_append', LocalSpec.trimRight, ← ih]
+    by_cases hr : r.reverse.dropWhile isSpTab = []
+    · simp only [hr, if_true, List.reverse_nil]
+      by_cases hc : c = 32 ∨ c = 9
+      · have : isSpTab c = true := by rcases hc with rfl | rfl <;> decide
+        simp [hc, this]
+      · have : isSpTab c = false := by
+          simp only [isSpTab, SP, TAB, Bool.or_eq_false_iff, beq_eq_false_iff_ne]
+          exact ⟨fun e => hc (Or.inl e), fun e => hc (Or.inr e)⟩
+        simp [hc, this]
+    · simp only [hr, if_false, List.reverse_append, List.reverse_singleton, List.singleton_append]
+      cases h : (r.reverse.dropWhile isSpTab).reverse with
+      | nil => simp at h; exact absurd h hr
+      | cons a t => rfl
+
+theorem cstr_eq_spec : ∀ l : Bytes, cstr l = LocalSpec.upToNul l
+  | [] => rfl
+  | c :: r => by
+    have ih := cstr_eq_spec r
+    unfold cstr at ih ⊢
+    by_cases hc : c = 0
+    · simp [LocalSpec.upToNul, hc, NUL]
+    · simp [LocalSpec.upToNul, hc, NUL, ih]
+
+/-- the documented meaning of a classified line -/
+def specOfLine : Line → LocalSpec.SInstr
+  | .blank => .blank
+  | .comment => .nothing
+  | .plusOther => .nothing
+  | .list => .list
+  | .act (.mbox f) => .mbox f
+  | .act (.maildir f) => .maildir f
+  | .act (.program c) => .program c
+  | .act (.forward a) => .forward a
+
+theorem classify_eq_spec (raw : Bytes) : specOfLine (classify raw) = LocalSpec.readLine raw := by
+  unfold classify LocalSpec.readLine
+  rw [stripTrail_eq_spec]
+  cases h : LocalSpec.trimRight raw with
+  | nil => simp [specOfLine]
+  | cons c rest =>
+    simp only [List.head?_cons, List.drop_one, List.tail_cons]
+    by_cases h0 : c = 0
+    · subst h0; simp [specOfLine, NUL]
+    by_cases h1 : c = 35
+    · subst h1; simp [specOfLine, NUL, HASH]
+    by_cases h2 : c = 124
+    · subst h2; simp [specOfLine, NUL, HASH, BAR, DOT, SLASH]
+    by_cases h3 : c = 38
+    · subst h3; simp [specOfLine, NUL, HASH, BAR, DOT, SLASH, AMP, PLUS]
+    by_cases h4 : c = 43
+    · subst h4
+      simp only [NUL, HASH, BAR, DOT, SLASH, AMP, PLUS, cstr_eq_spec, listB]
+      by_cases hl : LocalSpec.upToNul rest = [108, 105, 115, 116] <;> simp [hl, specOfLine]
+    · by_cases h5 : c = 46 ∨ c = 47
+      · simp only [NUL, HASH, BAR, DOT, SLASH, AMP, PLUS, h0, h1, h2, h3, h4, h5, if_false, if_true]
+        split <;> simp_all [specOfLine]
+      · simp only [NUL, HASH, BAR, DOT, SLASH, AMP, PLUS, h0, h1, h2, h3, h4, h5, if_false]
+        simp [specOfLine]
+
+/-! ### $DEFAULT -/
+
+theorem defaultB_eq : defaultB = LocalSpec.dflt := rfl
+theorem dotQmail_eq : dotQmail = LocalSpec.dotQmail := rfl
+
+theorem default_eq_spec (dash ext : Bytes) (c : Cand) (hc : c ∈ qmeCandidates dash (safeext ext)) :
+    c.dflt.map (fun i => ext.drop i) = LocalSpec.defaultVar dash ext c.name := by
+  have hlen : (safeext ext).length = ext.length := by simp [safeext]
+  simp only [qmeCandidates, List.mem_cons, List.mem_map] at hc
+  unfold LocalSpec.defaultVar
+  simp only [← safeext_eq_spec, ← defaultB_eq, ← dotQmail_eq]
+  rcases hc with rfl | ⟨i, hi, rfl⟩
+  · simp only [if_true, exactDflt, hlen]
+    split <;> simp
+  · have hile : i ≤ (safeext ext).length := ((mem_defIdxFrom _ _ i).1 hi).1
+    have htl : ((safeext ext).take i).length = i := by simp [List.length_take]; omega
+    simp only [Option.map_some]
+    split
+    · rename_i he
+      have he2 : (safeext ext).take i ++ defaultB = safeext ext := by
+        have := List.append_cancel_left (by simpa [List.append_assoc] using he :
+          (dotQmail ++ dash) ++ ((safeext ext).take i ++ defaultB) = (dotQmail ++ dash) ++ safeext ext)
+        exact this
+      have hl : (safeext ext).length = i + 7 := by
+        have := congrArg List.length he2
+        simp [htl, defaultB] at this; omega
+      have hi7 : ext.length - 7 = i := by omega
+      have hd : (safeext ext).drop ((safeext ext).length - 7) = defaultB := by
+        have h7 : (safeext ext).length - 7 = i := by omega
+        rw [h7]
+        conv => lhs; rw [← he2]
+        rw [List.drop_append_of_le_length (by omega)]
+        simp [htl]
+      have hcnd : 7 ≤ (safeext ext).length ∧ (safeext ext).drop ((safeext ext).length - 7) = defaultB :=
+        ⟨by omega, hd⟩
+      simp [hcnd, hi7]
+    · have : (dotQmail ++ dash ++ List.take i (safeext ext) ++ defaultB).length - (6 + dash.length + 7) = i := by
+        simp [htl, dotQmail, defaultB]; omega
+      rw [this]
+
+/-! ### the instruction loop = the documented walk -/
+
+set_option maxRecDepth 100000 in
+theorem progClass_table : ∀ code, code < 256 →
+    progClass code = (match LocalSpec.exitVerdict code with
+      | .ok => .ok | .stop => .stop99 | .hard => .exit 100 | .soft => .exit 111) := by
+  decide
+
+theorem progClass_spec (code : Nat) :
+    progClass code = (match LocalSpec.exitVerdict code with
+      | .ok => .ok | .stop => .stop99 | .hard => .exit 100 | .soft => .exit 111) := by
+  by_cases h : code < 256
+  · exact progClass_table code h
+  · have hb : ∀ k, k < 256 → (code == k) = false := by intro k hk; simp; omega
+    have hv : LocalSpec.exitVerdict code = .soft := by
+      unfold LocalSpec.exitVerdict
+      have h0 : code ≠ 0 := by omega
+      have h1 : code ≠ 99 := by omega
+      have h2 : ¬ (code = 100 ∨ code ∈ [64, 65, 70, 76, 77, 78, 112]) := by simp; omega
+      simp [h0, h1]; omega
+    have hl : progCases.lookup code = none := by
+      simp [progCases, List.lookup, hb]
+    simp [progClass, hl, hv, progDefault]
+
+def toRan : PRes → LocalSpec.Ran
+  | .exited c => .exited c
+  | .crashed => .crashed
+
+def specOfInstr : Instr → LocalSpec.SInstr
+  | .mbox f => .mbox f
+  | .maildir f => .maildir f
+  | .program c => .program c
+  | .forward a => .forward a
+
+def effOf : Instr → Option LocalSpec.Effect
+  | .mbox f => some (.mbox (cstr f))
+  | .maildir f => some (.maildir (cstr f))
+  | .program c => some (.program (cstr c))
+  | .forward _ => none
+
+def finCode : Fin → Option Nat
+  | .done => none
+  | .stop99 => some 0
+  | .die y => some y.code
+
+theorem step_stopped (doit : Bool) (run : Bytes → LocalSpec.Ran) (fileOK : LocalSpec.SInstr → Nat)
+    (w : LocalSpec.Walk) (i : LocalSpec.SInstr) (h : w.status.isSome = true) : LocalSpec.step doit run fileOK w i = w := by
+  simp [LocalSpec.step, h]
+
+theorem foldl_stopped (doit : Bool) (run : Bytes → LocalSpec.Ran) (fileOK : LocalSpec.SInstr → Nat) :
+    ∀ (l : List LocalSpec.SInstr) (w : LocalSpec.Walk), w.status.isSome = true →
+      l.foldl (LocalSpec.step doit run fileOK) w = w
+  | [], _, _ => rfl
+  | i :: l, w, h => by
+    rw [List.foldl_cons, step_stopped doit run fileOK w i h]
+    exact foldl_stopped doit run fileOK l w h
+
+/-- the relation between the final state of the documented walk, its start state, and the model's trace -/
+def Rel (W w : LocalSpec.Walk) (t : Trace) : Prop :=
+  W.shown = (t.did.map specOfInstr).reverse ++ w.shown ∧
+  W.effects = (t.did.filterMap effOf).reverse ++ w.effects ∧
+  W.recips = ((t.did.filterMap fwdAddr).map cstr).reverse ++ w.recips ∧
+  W.status = finCode t.fin
+
+theorem walk_eq (px : Bytes → PRes) (dx : Instr → Option Why) (fileOK : LocalSpec.SInstr → Nat)
+    (hfile : ∀ i, fileOK (specOfInstr i) = match dx i with | some y => y.code | none => 0)
+    (hnz : ∀ i y, dx i = some y → y.code ≠ 0) :
+    ∀ (lines : List Bytes) (w : LocalSpec.Walk), w.status = none →
+      Rel ((lines.map LocalSpec.readLine).foldl (LocalSpec.step true (fun c => toRan (px c)) fileOK) w) w
+        (dispatch px dx w.first w.forwardOnly lines)
+  | [], w, hw => by simp [Rel, dispatch, finCode, hw]
+  | raw :: rest, w, hw => by
+    have ih := walk_eq px dx fileOK hfile hnz rest
+    simp only [List.map_cons, List.foldl_cons]
+    rw [← classify_eq_spec raw]
+    unfold dispatch
+    -- the state after a line that has no effect
+    have skip : ∀ fo', Rel ((rest.map LocalSpec.readLine).foldl (LocalSpec.step true (fun c => toRan (px c)) fileOK)
+          { w with first := false, forwardOnly := fo' }) w (dispatch px dx false fo' rest) := by
+      intro fo'
+      have := ih { w with first := false, forwardOnly := fo' } hw
+      simpa [Rel] using this
+    cases hc : classify raw with
+    | blank =>
+      simp only [specOfLine]
+      by_cases hf : w.first = true
+      · have hs : LocalSpec.step true (fun c => toRan (px c)) fileOK w .blank = { w with first := false, status := some 111 } := by
+          simp [LocalSpec.step, hw, hf]
+        rw [hs, foldl_stopped _ _ _ _ _ (by simp)]
+        simp [Rel, hf, finCode, Why.code, blankFirstCode]
+      · have hs : LocalSpec.step true (fun c => toRan (px c)) fileOK w .blank = { w with first := false } := by
+          simp [LocalSpec.step, hw, hf]
+        rw [hs]
+        simp only [hf]
+        have := skip w.forwardOnly
+        simpa using this
+    | comment =>
+      simp only [specOfLine]
+      have hs : LocalSpec.step true (fun c => toRan (px c)) fileOK w .nothing = { w with first := false } := by
+        simp [LocalSpec.step, hw]
+      rw [hs]; simpa using skip w.forwardOnly
+    | plusOther =>
+      simp only [specOfLine]
+      have hs : LocalSpec.step true (fun c => toRan (px c)) fileOK w .nothing = { w with first := false } := by
+        simp [LocalSpec.step, hw]
+      rw [hs]; simpa using skip w.forwardOnly
+    | list =>
+      simp only [specOfLine]
+      have hs : LocalSpec.step true (fun c => toRan (px c)) fileOK w .list = { w with first := false, forwardOnly := true } := by
+        simp [LocalSpec.step, hw]
+      rw [hs]; simpa using skip true
+    | act i =>
+      -- an instruction that is acted upon and after which the walk goes on
+      have go : ∀ (w' : LocalSpec.Walk), w'.status = none → w'.first = false → w'.forwardOnly = w.forwardOnly →
+          w'.shown = specOfInstr i :: w.shown → w'.effects = (effOf i).toList ++ w.effects →
+          w'.recips = ((fwdAddr i).map cstr).toList ++ w.recips →
+          Rel ((rest.map LocalSpec.readLine).foldl (LocalSpec.step true (fun c => toRan (px c)) fileOK) w') w
+            ((dispatch px dx false w.forwardOnly rest).cons i) := by
+        intro w' h1 h2 h3 h4 h5 h6
+        have := ih w' h1
+        rw [h2, h3] at this
+        obtain ⟨a1, a2, a3, a4⟩ := this
+        refine ⟨?_, ?_, ?_, ?_⟩
+        · rw [a1, h4]; simp
+        · rw [a2, h5]; cases hi : effOf i <;> simp [hi]
+        · rw [a3, h6]; cases hi : fwdAddr i <;> simp [hi]
+        · rw [a4]; rfl
+      -- an instruction after which the walk stops
+      have stop : ∀ (w' : LocalSpec.Walk) (f : Fin), w'.status = finCode f → w'.status.isSome = true →
+          w'.shown = specOfInstr i :: w.shown → w'.effects = (effOf i).toList ++ w.effects → w'.recips = w.recips →
+          fwdAddr i = none →
+          Rel ((rest.map LocalSpec.readLine).foldl (LocalSpec.step true (fun c => toRan (px c)) fileOK) w') w ⟨[i], f⟩ := by
+        intro w' f h1 h2 h4 h5 h6 h7
+        rw [foldl_stopped _ _ _ _ _ h2]
+        refine ⟨by rw [h4]; simp, ?_, by rw [h6]; simp [h7], h1⟩
+        rw [h5]; cases hi : effOf i <;> simp [hi]
+      -- a refusal before acting
+      have refuse : ∀ (w' : LocalSpec.Walk) (y : Why), w'.status = some y.code →
+          w'.shown = w.shown → w'.effects = w.effects → w'.recips = w.recips →
+          Rel ((rest.map LocalSpec.readLine).foldl (LocalSpec.step true (fun c => toRan (px c)) fileOK) w') w ⟨[], .die y⟩ := by
+        intro w' y h1 h4 h5 h6
+        rw [foldl_stopped _ _ _ _ _ (by simp [h1])]
+        exact ⟨by rw [h4]; simp, by rw [h5]; simp, by rw [h6]; simp, h1⟩
+      cases i with
+      | forward a =>
+        simp only [specOfLine]
+        have hs : LocalSpec.step true (fun c => toRan (px c)) fileOK w (.forward a) =
+            { w with first := false, recips := LocalSpec.upToNul a :: w.recips, shown := .forward a :: w.shown } := by
+          simp [LocalSpec.step, hw]
+        rw [hs]
+        exact go _ (by exact hw) rfl rfl rfl rfl (by simp [fwdAddr, cstr_eq_spec])
+      | program c =>
+        simp only [specOfLine]
+        by_cases hfo : w.forwardOnly = true
+        · have hs : LocalSpec.step true (fun c => toRan (px c)) fileOK w (.program c) = { w with first := false, status := some 111 } := by
+            simp [LocalSpec.step, hw, hfo]
+          rw [hs]; simp only [hfo, if_true]
+          exact refuse _ .xbitProg (by simp [Why.code, xbitProgCode]) rfl rfl rfl
+        · have hfo' : w.forwardOnly = false := by simpa using hfo
+          simp only [hfo', Bool.false_eq_true, if_false]
+          rw [hfo'] at go
+          cases hp : px (cstr c) with
+          | crashed =>
+            have hs : LocalSpec.step true (fun c => toRan (px c)) fileOK w (.program c) =
+                { w with first := false, effects := .program (LocalSpec.upToNul c) :: w.effects,
+                         shown := .program c :: w.shown, status := some 111 } := by
+              simp [LocalSpec.step, hw, hfo, ← cstr_eq_spec, hp, toRan]
+            rw [hs]
+            exact stop _ (.die .childCrashed) (by simp [finCode, Why.code, childCrashedCode]) (by simp) rfl
+              (by simp [effOf, cstr_eq_spec]) rfl rfl
+          | exited code =>
+            simp only
+            rw [progClass_spec code]
+            cases hv : LocalSpec.exitVerdict code with
+            | ok =>
+              have hs : LocalSpec.step true (fun c => toRan (px c)) fileOK w (.program c) =
+                  { w with first := false, effects := .program (LocalSpec.upToNul c) :: w.effects, shown := .program c :: w.shown } := by
+                simp [LocalSpec.step, hw, hfo, ← cstr_eq_spec, hp, toRan, hv]
+              rw [hs]
+              dsimp only
+              apply go <;> first | exact hw | rfl | exact hfo' | simp [effOf, fwdAddr, cstr_eq_spec]
+            | stop =>
+              have hs : LocalSpec.step true (fun c => toRan (px c)) fileOK w (.program c) =
+                  { w with first := false, effects := .program (LocalSpec.upToNul c) :: w.effects,
+                           shown := .program c :: w.shown, status := some 0 } := by
+                simp [LocalSpec.step, hw, hfo, ← cstr_eq_spec, hp, toRan, hv]
+              rw [hs]
+              exact stop _ .stop99 (by simp [finCode]) (by simp) rfl (by simp [effOf, cstr_eq_spec]) rfl rfl
+            | hard =>
+              have hs : LocalSpec.step true (fun c => toRan (px c)) fileOK w (.program c) =
+                  { w with first := false, effects := .program (LocalSpec.upToNul c) :: w.effects,
+                           shown := .program c :: w.shown, status := some 100 } := by
+                simp [LocalSpec.step, hw, hfo, ← cstr_eq_spec, hp, toRan, hv]
+              rw [hs]
+              exact stop _ (.die (.progExit 100)) (by simp [finCode, Why.code]) (by simp) rfl (by simp [effOf, cstr_eq_spec]) rfl rfl
+            | soft =>
+              have hs : LocalSpec.step true (fun c => toRan (px c)) fileOK w (.program c) =
+                  { w with first := false, effects := .program (LocalSpec.upToNul c) :: w.effects,
+                           shown := .program c :: w.shown, status := some 111 } := by
+                simp [LocalSpec.step, hw, hfo, ← cstr_eq_spec, hp, toRan, hv]
+              rw [hs]
+              exact stop _ (.die (.progExit 111)) (by simp [finCode, Why.code]) (by simp) rfl (by simp [effOf, cstr_eq_spec]) rfl rfl
+      | mbox f =>
+        simp only [specOfLine]
+        by_cases hfo : w.forwardOnly = true
+        · have hs : LocalSpec.step true (fun c => toRan (px c)) fileOK w (.mbox f) = { w with first := false, status := some 111 } := by
+            simp [LocalSpec.step, hw, hfo]
+          rw [hs]; simp only [hfo, if_true]
+          exact refuse _ .xbitFile (by simp [Why.code, xbitFileCode]) rfl rfl rfl
+        · have hfo' : w.forwardOnly = false := by simpa using hfo
+          simp only [hfo', Bool.false_eq_true, if_false]
+          rw [hfo'] at go
+          have hf := hfile (.mbox f)
+          simp only [specOfInstr] at hf
+          cases hd : dx (.mbox f) with
+          | none =>
+            rw [hd] at hf
+            have hs : LocalSpec.step true (fun c => toRan (px c)) fileOK w (.mbox f) =
+                { w with first := false, effects := .mbox (LocalSpec.upToNul f) :: w.effects, shown := .mbox f :: w.shown } := by
+              simp [LocalSpec.step, hw, hfo, hf]
+            rw [hs]
+            dsimp only
+            apply go <;> first | exact hw | rfl | exact hfo' | simp [effOf, fwdAddr, cstr_eq_spec]
+          | some y =>
+            rw [hd] at hf
+            have hy := hnz _ y hd
+            have hs : LocalSpec.step true (fun c => toRan (px c)) fileOK w (.mbox f) =
+                { w with first := false, effects := .mbox (LocalSpec.upToNul f) :: w.effects, shown := .mbox f :: w.shown,
+                         status := some y.code } := by
+              simp [LocalSpec.step, hw, hfo, hf, hy]
+            rw [hs]
+            exact stop _ (.die y) (by simp [finCode]) (by simp) rfl (by simp [effOf, cstr_eq_spec]) rfl rfl
+      | maildir f =>
+        simp only [specOfLine]
+        by_cases hfo : w.forwardOnly = true
+        · have hs : LocalSpec.step true (fun c => toRan (px c)) fileOK w (.maildir f) = { w with first := false, status := some 111 } := by
+            simp [LocalSpec.step, hw, hfo]
+          rw [hs]; simp only [hfo, if_true]
+          exact refuse _ .xbitFile (by simp [Why.code, xbitFileCode]) rfl rfl rfl
+        · have hfo' : w.forwardOnly = false := by simpa using hfo
+          simp only [hfo', Bool.false_eq_true, if_false]
+          rw [hfo'] at go
+          have hf := hfile (.maildir f)
+          simp only [specOfInstr] at hf
+          cases hd : dx (.maildir f) with
+          | none =>
+            rw [hd] at hf
+            have hs : LocalSpec.step true (fun c => toRan (px c)) fileOK w (.maildir f) =
+                { w with first := false, effects := .maildir (LocalSpec.upToNul f) :: w.effects, shown := .maildir f :: w.shown } := by
+              simp [LocalSpec.step, hw, hfo, hf]
+            rw [hs]
+            dsimp only
+            apply go <;> first | exact hw | rfl | exact hfo' | simp [effOf, fwdAddr, cstr_eq_spec]
+          | some y =>
+            rw [hd] at hf
+            have hy := hnz _ y hd
+            have hs : LocalSpec.step true (fun c => toRan (px c)) fileOK w (.maildir f) =
+                { w with first := false, effects := .maildir (LocalSpec.upToNul f) :: w.effects, shown := .maildir f :: w.shown,
+                         status := some y.code } := by
+              simp [LocalSpec.step, hw, hfo, hf, hy]
+            rw [hs]
+            exact stop _ (.die y) (by simp [finCode]) (by simp) rfl (by simp [effOf, cstr_eq_spec]) rfl rfl
+
+
+/-- `-n`: nothing is run; the walk only collects what it would do -/
+def RelN (W w : LocalSpec.Walk) (t : Trace) : Prop :=
+  W.shown = (t.did.map specOfInstr).reverse ++ w.shown ∧
+  W.effects = w.effects ∧
+  W.recips = ((t.did.filterMap fwdAddr).map cstr).reverse ++ w.recips ∧
+  W.status = finCode t.fin
+
+theorem progClass_zero : progClass 0 = .ok := by decide
+
+theorem walk_eq_n (run : Bytes → LocalSpec.Ran) (fileOK : LocalSpec.SInstr → Nat) :
+    ∀ (lines : List Bytes) (w : LocalSpec.Walk), w.status = none →
+      RelN ((lines.map LocalSpec.readLine).foldl (LocalSpec.step false run fileOK) w) w
+        (dispatch (fun _ => .exited 0) (fun _ => none) w.first w.forwardOnly lines)
+  | [], w, hw => by simp [RelN, dispatch, finCode, hw]
+  | raw :: rest, w, hw => by
+    have ih := walk_eq_n run fileOK rest
+    simp only [List.map_cons, List.foldl_cons]
+    rw [← classify_eq_spec raw]
+    unfold dispatch
+    have skip : ∀ fo', RelN ((rest.map LocalSpec.readLine).foldl (LocalSpec.step false run fileOK)
+          { w with first := false, forwardOnly := fo' }) w (dispatch (fun _ => .exited 0) (fun _ => none) false fo' rest) := by
+      intro fo'
+      have := ih { w with first := false, forwardOnly := fo' } hw
+      simpa [RelN] using this
+    cases hc : classify raw with
+    | blank =>
+      simp only [specOfLine]
+      by_cases hf : w.first = true
+      · have hs : LocalSpec.step false run fileOK w .blank = { w with first := false, status := some 111 } := by
+          simp [LocalSpec.step, hw, hf]
+        rw [hs, foldl_stopped _ _ _ _ _ (by simp)]
+        simp [RelN, hf, finCode, Why.code, blankFirstCode]
+      · have hs : LocalSpec.step false run fileOK w .blank = { w with first := false } := by
+          simp [LocalSpec.step, hw, hf]
+        rw [hs]
+        simp only [hf]
+        have := skip w.forwardOnly
+        simpa using this
+    | comment =>
+      simp only [specOfLine]
+      have hs : LocalSpec.step false run fileOK w .nothing = { w with first := false } := by
+        simp [LocalSpec.step, hw]
+      rw [hs]; simpa using skip w.forwardOnly
+    | plusOther =>
+      simp only [specOfLine]
+      have hs : LocalSpec.step false run fileOK w .nothing = { w with first := false } := by
+        simp [LocalSpec.step, hw]
+      rw [hs]; simpa using skip w.forwardOnly
+    | list =>
+      simp only [specOfLine]
+      have hs : LocalSpec.step false run fileOK w .list = { w with first := false, forwardOnly := true } := by
+        simp [LocalSpec.step, hw]
+      rw [hs]; simpa using skip true
+    | act i =>
+      have go : ∀ (w' : LocalSpec.Walk), w'.status = none → w'.first = false → w'.forwardOnly = w.forwardOnly →
+          w'.shown = specOfInstr i :: w.shown → w'.effects = w.effects →
+          w'.recips = ((fwdAddr i).map cstr).toList ++ w.recips →
+          RelN ((rest.map LocalSpec.readLine).foldl (LocalSpec.step false run fileOK) w') w
+            ((dispatch (fun _ => .exited 0) (fun _ => none) false w.forwardOnly rest).cons i) := by
+        intro w' h1 h2 h3 h4 h5 h6
+        have := ih w' h1
+        rw [h2, h3] at this
+        obtain ⟨a1, a2, a3, a4⟩ := this
+        refine ⟨?_, ?_, ?_, ?_⟩
+        · rw [a1, h4]; simp
+        · rw [a2, h5]
+        · rw [a3, h6]; cases hi : fwdAddr i <;> simp [hi]
+        · rw [a4]; rfl
+      have refuse : ∀ (w' : LocalSpec.Walk) (y : Why), w'.status = some y.code →
+          w'.shown = w.shown → w'.effects = w.effects → w'.recips = w.recips →
+          RelN ((rest.map LocalSpec.readLine).foldl (LocalSpec.step false run fileOK) w') w ⟨[], .die y⟩ := by
+        intro w' y h1 h4 h5 h6
+        rw [foldl_stopped _ _ _ _ _ (by simp [h1])]
+        exact ⟨by rw [h4]; simp, h5, by rw [h6]; simp, h1⟩
+      cases i with
+      | forward a =>
+        simp only [specOfLine]
+        have hs : LocalSpec.step false run fileOK w (.forward a) =
+            { w with first := false, recips := LocalSpec.upToNul a :: w.recips, shown := .forward a :: w.shown } := by
+          simp [LocalSpec.step, hw]
+        rw [hs]
+        apply go <;> first | exact hw | rfl | simp [fwdAddr, cstr_eq_spec]
+      | program c =>
+        simp only [specOfLine]
+        by_cases hfo : w.forwardOnly = true
+        · have hs : LocalSpec.step false run fileOK w (.program c) = { w with first := false, status := some 111 } := by
+            simp [LocalSpec.step, hw, hfo]
+          rw [hs]; simp only [hfo, if_true]
+          exact refuse _ .xbitProg (by simp [Why.code, xbitProgCode]) rfl rfl rfl
+        · have hfo' : w.forwardOnly = false := by simpa using hfo
+          simp only [hfo', Bool.false_eq_true, if_false, progClass_zero]
+          rw [hfo'] at go
+          have hs : LocalSpec.step false run fileOK w (.program c) =
+              { w with first := false, shown := .program c :: w.shown } := by
+            simp [LocalSpec.step, hw, hfo]
+          rw [hs]
+          apply go <;> first | exact hw | rfl | exact hfo' | simp [fwdAddr]
+      | mbox f =>
+        simp only [specOfLine]
+        by_cases hfo : w.forwardOnly = true
+        · have hs : LocalSpec.step false run fileOK w (.mbox f) = { w with first := false, status := some 111 } := by
+            simp [LocalSpec.step, hw, hfo]
+          rw [hs]; simp only [hfo, if_true]
+          exact refuse _ .xbitFile (by simp [Why.code, xbitFileCode]) rfl rfl rfl
+        · have hfo' : w.forwardOnly = false := by simpa using hfo
+          simp only [hfo', Bool.false_eq_true, if_false]
+          rw [hfo'] at go
+          have hs : LocalSpec.step false run fileOK w (.mbox f) =
+              { w with first := false, shown := .mbox f :: w.shown } := by
+            simp [LocalSpec.step, hw, hfo]
+          rw [hs]
+          apply go <;> first | exact hw | rfl | exact hfo' | simp [fwdAddr]
+      | maildir f =>
+        simp only [specOfLine]
+        by_cases hfo : w.forwardOnly = true
+        · have hs : LocalSpec.step false run fileOK w (.maildir f) = { w with first := false, status := some 111 } := by
+            simp [LocalSpec.step, hw, hfo]
+          rw [hs]; simp only [hfo, if_true]
+          exact refuse _ .xbitFile (by simp [Why.code, xbitFileCode]) rfl rfl rfl
+        · have hfo' : w.forwardOnly = false := by simpa using hfo
+          simp only [hfo', Bool.false_eq_true, if_false]
+          rw [hfo'] at go
+          have hs : LocalSpec.step false run fileOK w (.maildir f) =
+              { w with first := false, shown := .maildir f :: w.shown } := by
+            simp [LocalSpec.step, hw, hfo]
+          rw [hs]
+          apply go <;> first | exact hw | rfl | exact hfo' | simp [fwdAddr]
+
+/-! ### splitting the control file into lines -/
+
+theorem splitAux_ne_nil : ∀ t : Bytes, splitAux t ≠ []
+  | [] => by simp [splitAux]
+  | c :: r => by
+    unfold splitAux
+    split
+    · simp
+    · split <;> simp
+
+theorem go_eq_splitAux : ∀ (t acc : Bytes),
+    LocalSpec.instrLines.go acc t = (match splitAux t with | h :: tl => (acc.reverse ++ h) :: tl | [] => [])
+  | [], acc => by simp [LocalSpec.instrLines.go, splitAux]
+  | c :: r, acc => by
+    have ih := go_eq_splitAux r
+    unfold LocalSpec.instrLines.go splitAux
+    by_cases hc : c = 10
+    · have hc' : c = LF := hc
+      simp only [hc, hc', if_true]
+      rw [ih []]
+      cases h : splitAux r with
+      | nil => exact absurd h (splitAux_ne_nil r)
+      | cons a b => simp
+    · have hc' : ¬ c = LF := hc
+      simp only [hc, hc', if_false]
+      rw [ih (c :: acc)]
+      cases h : splitAux r with
+      | nil => exact absurd h (splitAux_ne_nil r)
+      | cons a b => simp
+
+theorem splitAux_snoc_LF : ∀ t : Bytes, splitAux (t ++ [LF]) = splitAux t ++ [[]]
+  | [] => by simp [splitAux]
+  | c :: r => by
+    have ih := splitAux_snoc_LF r
+    simp only [List.cons_append]
+    unfold splitAux
+    by_cases hc : c = LF
+    · simp only [hc, if_true, ih]; simp
+    · simp only [hc, if_false, ih]
+      cases h : splitAux r with
+      | nil => exact absurd h (splitAux_ne_nil r)
+      | cons a b => simp
+
+theorem dropLast_snoc_of_getLast? (l : Bytes) (a : Byte) (h : l.getLast? = some a) : l.dropLast ++ [a] = l := by
+  have hne : l ≠ [] := by intro e; simp [e] at h
+  have h1 := List.dropLast_concat_getLast hne
+  have h2 : l.getLast? = some (l.getLast hne) := List.getLast?_eq_some_getLast hne
+  rw [h2] at h
+  have h3 : l.getLast hne = a := by simpa using h
+  rw [h3] at h1; exact h1
+
+/-- the model's line splitting (`fixup`, then every LF ends a line) is the documented one -/
+theorem splitLines_eq_spec (text : Bytes) : splitLines (fixup text) = LocalSpec.instrLines text := by
+  unfold LocalSpec.instrLines
+  simp only
+  rw [go_eq_splitAux]
+  have hgo : ∀ t : Bytes, (match splitAux t with | h :: tl => (([] : Bytes).reverse ++ h) :: tl | [] => []) = splitAux t := by
+    intro t
+    cases h : splitAux t with
+    | nil => rfl
+    | cons a b => simp
+  rw [hgo]
+  unfold splitLines fixup
+  by_cases hl : text.getLast? = some LF
+  · have hl' : text.getLast? = some 10 := hl
+    simp only [hl, hl', if_true]
+    have := dropLast_snoc_of_getLast? text LF hl
+    conv => lhs; rw [← this, splitAux_snoc_LF]
+    simp
+  · have hl' : ¬ text.getLast? = some 10 := hl
+    simp only [hl, hl', if_false]
+    rw [splitAux_snoc_LF]; simp
+
 end Nq.Lemmas.Local
